@@ -12,7 +12,7 @@ checks = {
  "C08": ("exploration", "cumulative task sets x CumulativeOptions sweep; iterated set vs definition", "Solution sets under 8 (quick) / all 144 (thorough) option combinations are compared with the definitional solution set.", "DESIGN 4/C08"),
  "C09": ("exploration", "all constraint kinds x implied_by/reify/negation; iterated set vs implication/equivalence semantics", "Solution sets over (variables, literal) are compared with the reference defined by implication / equivalence / complement.", "DESIGN 4/C09"),
  "C10": ("exploration", "model-based stateful testing of API call sequences", "Operation sequences are interpreted against a reference model which accumulates constraints, blocking clauses and objective cuts; every result is judged by brute force.", "DESIGN 4/C10"),
- "C11": ("fault_enumeration", "every stop index of the harness-owned termination condition (exhaustive when N<=64)", "The poll index at which the termination fires is enumerated exhaustively for runs with at most 64 polls (sampled beyond), each followed by an uninterrupted solve on the same solver.", "DESIGN 4/C11"),
+ "C11": ("fault_enumeration", "every stop index of the harness-owned termination condition (exhaustive when N<=64); plus command-line optimisation runs interrupted by the wall-clock limit -t on a pigeon-hole-gated model (timing-independent oracle)", "The poll index at which the termination fires is enumerated exhaustively for runs with at most 64 polls (sampled beyond), each followed by an uninterrupted solve on the same solver.", "DESIGN 4/C11"),
  "C12": ("exploration", "posting prefixes; reported bounds vs exhaustive solution sets", "Bounds and literal values after every posting prefix are compared with the solution set of the prefix, incl. views of both signs.", "DESIGN 4/C12"),
  "C13": ("exploration", "generated FlatZinc text through the real binary; output vs brute-force projection", "Generated FlatZinc over all handled builtins is run through the command-line binary and its printed solutions are compared with the brute-force projection on the output items.", "DESIGN 4/C13"),
  "C14": ("exploration", "generated CNF x layouts through the real binary; brute force + own RUP checker", "Verdicts vs brute force, models evaluated, layouts compared, DRAT proofs validated by the harness's forward RUP checker (translation validation of each emitted proof inside an exploration campaign).", "DESIGN 4/C14"),
